@@ -164,4 +164,41 @@ def loadClass {P} (O : Oracles P) (table : Bytes → Option Event) (errs : Bytes
       | some true => some .ok
       | _ => some .authRulesErr
 
+/-! ### RequestBackfill
+
+  C14's title — only events that pass the checks leave federation verification — read for RequestBackfill,
+  with the one exception the code documents: an event that fails the SIGNATURE check is still handed on
+  ("the signature of the event might not be valid anymore", backfill.go) — and, LoadAndVerify classifying by
+  the FIRST failing check, such an event was never auth-checked.  So: every returned event is a cleanly
+  parsed PDU of some server's answer; it either fails its signature check or passes the auth-chain check
+  (step 4) and the state-at-event check (step 5); and no event ID is returned twice. -/
+
+/-- steps 4 and 5 of the per-event pipeline for one event; `none` = fuel exhausted -/
+def authPasses {P} (O : Oracles P) (table : Bytes → Option Event) (errs : Bytes → Bool) (sp : StateProvider) (fuel : Nat)
+    (e : Event) : Option Bool :=
+  match chainAccepts O e table errs fuel with
+  | none => none
+  | some false => some false
+  | some true =>
+    match atState O sp e true with
+    | some true => some true
+    | _ => some false
+
+inductive BackfillVerdict where
+  | fine
+  | notFromResponse
+  | failsAuth
+  deriving DecidableEq, Repr
+
+def backfillEventOK {P} (O : Oracles P) (table : Bytes → Option Event) (errs : Bytes → Bool) (sp : StateProvider) (fuel : Nat)
+    (inAnswers : Event → Bool) (e : Event) : Option BackfillVerdict :=
+  if !inAnswers e then some .notFromResponse
+  else if !O.sigOk e then some .fine
+  else (authPasses O table errs sp fuel e).map (fun b => if b then .fine else .failsAuth)
+
+/-- the first event whose ID occurs again later in the list -/
+def firstRepeatedID : List Event → Option Event
+  | [] => none
+  | e :: es => if es.any (fun x => x.eventID == e.eventID) then some e else firstRepeatedID es
+
 end V.FedCheck.Spec
